@@ -14,6 +14,7 @@ import (
 
 	abci "github.com/cometbft/cometbft/abci/types"
 	sdk "github.com/cosmos/cosmos-sdk/types"
+	authsigning "github.com/cosmos/cosmos-sdk/x/auth/signing"
 	"github.com/cosmos/cosmos-sdk/x/authz"
 	upgradetypes "github.com/cosmos/cosmos-sdk/x/upgrade/types"
 	aoltypes "github.com/medibloc/panacea-core/v2/x/aol/types"
@@ -630,6 +631,31 @@ func (e *Exec) checkBurn(h int64, burnAddr sdk.AccAddress, spendableBefore sdk.C
 			e.viol("C07", "burn.supply_delta", "burn", "EndBlock(%d): supply of %s changed %s -> %s although nothing was spendable at the burn address", h, d, v, post.Supply[d])
 		}
 	}
+	// 2b. the bank-wide accounting identity: total supply equals the sum of all balances, per denomination
+	sums := map[string]sdk.Int{}
+	for k, v := range post.Bal {
+		den := k[strings.LastIndex(k, "|")+1:]
+		a, ok := sdk.NewIntFromString(v)
+		if !ok {
+			continue
+		}
+		if cur, have := sums[den]; have {
+			sums[den] = cur.Add(a)
+		} else {
+			sums[den] = a
+		}
+	}
+	for den, sup := range post.Supply {
+		s2, _ := sdk.NewIntFromString(sup)
+		got, have := sums[den]
+		if !have {
+			got = sdk.ZeroInt()
+		}
+		if !got.Equal(s2) {
+			e.viol("C07", "bank.supply_identity", "burn", "after EndBlock(%d): total supply of %s is %s but the balances sum to %s", h, den, s2, got)
+			break
+		}
+	}
 	// 3. no other account's balance is changed by the burn
 	for k, ch := range diffSnap(pre.Bal, post.Bal) {
 		if strings.HasPrefix(k, ba+"|") {
@@ -1066,6 +1092,7 @@ func (e *Exec) deliverOnR0(p *pendingTx, blk *Block, rec *BlockRec) {
 		e.BuiltMsgs[p.ID] = bt.Msgs
 	}
 	e.checkSignBytes(p.ID, bt)
+	e.recomputeSignBytes(e.R[(p.ID)%len(e.R)].Node, p.ID, bt)
 	e.clientSideValidate(p.ID, bt)
 
 	pred := e.predict(bt, blk, r0.Node)
@@ -1524,6 +1551,40 @@ func (e *Exec) checkSignBytes(id int, bt *BuiltTx) {
 			e.viol("C14", "signbytes.collision", "signbytes:"+string(bt.Sigs[i].Mode), "two different message lists share %s sign bytes (tx %d, tampered variant): bytes=%s", bt.Sigs[i].Mode, id, trunc(string(sb), 300))
 		}
 		e.signMap[k] = bt.BodyHash
+	}
+}
+
+// recomputeSignBytes: "the sign bytes of a given message are identical on every node and every time they are computed":
+// decode the delivered bytes with the TxConfig of node n and compute the sign bytes again.
+func (e *Exec) recomputeSignBytes(n *Node, id int, bt *BuiltTx) {
+	if len(bt.AltSignBytes) > 0 || len(bt.SignBytes) == 0 {
+		return // tampered: signatures were made over another body
+	}
+	defer func() { recover() }()
+	cfg := n.App.TxConfig()
+	tx, err := cfg.TxDecoder()(bt.Bytes)
+	if err != nil {
+		return
+	}
+	stx, ok := tx.(authsigning.Tx)
+	if !ok {
+		return
+	}
+	for i, su := range bt.Sigs {
+		if i >= len(bt.SignBytes) || su.Mode == ModeAux {
+			continue
+		}
+		acc := e.Env.Accs[su.Acc]
+		sd := authsigning.SignerData{ChainID: su.ChainID, AccountNumber: su.AccNum, Sequence: su.Seq, PubKey: acc.Priv.PubKey(), Address: acc.Addr.String()}
+		again, err := cfg.SignModeHandler().GetSignBytes(su.Mode.sdk(), sd, stx)
+		if err != nil {
+			continue
+		}
+		e.Stats.Inc("signbytes.recomputed")
+		if !bytes.Equal(again, bt.SignBytes[i]) {
+			e.viol("C14", "signbytes.not_reproducible", fmt.Sprintf("tx%d", id), "sign bytes (%s mode) of tx %d recomputed on replica %d differ from the bytes the client signed", su.Mode, id, n.ID)
+			return
+		}
 	}
 }
 
